@@ -20,7 +20,7 @@ use crate::mon::{guard, h2, hstr, par_shards, Ctx, Local, Outcome, Report};
 use crate::refcal as rc;
 use crate::refinst::{self as ri, RDt};
 use crate::rng::Rng;
-use chrono::format::{ParseError, StrftimeItems};
+use chrono::format::{Item, ParseError, Parsed, StrftimeItems};
 use chrono::{DateTime, Datelike, FixedOffset, NaiveDate, NaiveDateTime, NaiveTime, TimeZone, Timelike};
 use serde_json::{json, Value};
 use std::fmt::Write as _;
@@ -52,7 +52,7 @@ const B: &[&str] = &[
     "v_offset_seconds", "v_offset_zero", "v_ts_negative", "v_wall_outside_range", "v_ordinal_366", "v_ordinal_lt_100",
     "v_week_0", "v_week_53", "v_iso_spill", "v_range_end", "v_day_lt_10",
     // checks performed
-    "chk_plain", "chk_remainder", "chk_case", "chk_space", "canonical_formats",
+    "chk_plain", "chk_items_routes", "chk_remainder", "chk_case", "chk_space", "canonical_formats",
     // print-only / read-only specifiers
     "x_tzname_with_offset", "x_tzname_alone_rejected", "x_tzname_skipped_naive", "x_colon2_print_only",
     "x_colon3_print_only", "x_hash_z_reads_z", "x_hash_z_reads_colon_z", "x_hash_z_reads_hours_only",
@@ -71,7 +71,7 @@ const FLOOR: &[&str] = &[
     "v_year_lt_1000", "v_year_pivot_edge", "v_leap_second", "v_hour_0", "v_hour_12", "v_hour_ge_13", "v_frac_zero",
     "v_frac_ms", "v_frac_us", "v_frac_ns", "v_offset_negative", "v_offset_seconds", "v_offset_zero", "v_ts_negative",
     "v_wall_outside_range", "v_ordinal_366", "v_ordinal_lt_100", "v_week_0", "v_week_53", "v_iso_spill", "v_range_end",
-    "v_day_lt_10", "chk_plain", "chk_remainder", "chk_case", "chk_space", "canonical_formats", "x_tzname_with_offset",
+    "v_day_lt_10", "chk_plain", "chk_items_routes", "chk_remainder", "chk_case", "chk_space", "canonical_formats", "x_tzname_with_offset",
     "x_tzname_alone_rejected", "x_tzname_skipped_naive", "x_colon2_print_only", "x_colon3_print_only",
     "x_hash_z_reads_z", "x_hash_z_reads_colon_z", "x_hash_z_reads_hours_only",
 ];
@@ -1284,6 +1284,19 @@ fn parse_plain(t: Target, text: &str, f: &str) -> Result<Got, ParseError> {
     }
 }
 
+/// The same parse through pre-parsed items (`StrftimeItems::parse` = borrowed items,
+/// `parse_to_owned` = owned items) handed to `format::parse` and resolved by `Parsed`.
+fn parse_items(t: Target, text: &str, items: &[Item<'_>]) -> Result<Got, ParseError> {
+    let mut p = Parsed::new();
+    chrono::format::parse(&mut p, text, items.iter())?;
+    match t {
+        Target::Date => p.to_naive_date().map(|x| got_d(&x)),
+        Target::Time => p.to_naive_time().map(|x| got_t(&x)),
+        Target::Naive => p.to_naive_datetime_with_offset(0).map(|x| got_n(&x)),
+        Target::Zoned => p.to_datetime().map(|x| got_z(&x)),
+    }
+}
+
 fn parse_rem(t: Target, text: &str, f: &str) -> Result<(Got, String), ParseError> {
     match t {
         Target::Date => NaiveDate::parse_and_remainder(text, f).map(|(x, r)| (got_d(&x), r.to_string())),
@@ -1447,6 +1460,7 @@ fn gen_val(rng: &mut Rng, f: &Fmt, c: &Cats) -> Val {
 }
 
 struct VIx {
+    items: usize,
     neg: usize,
     y5: usize,
     y3: usize,
@@ -1504,6 +1518,7 @@ fn vix() -> VIx {
         end: bi("v_range_end"),
         d9: bi("v_day_lt_10"),
         plain: bi("chk_plain"),
+        items: bi("chk_items_routes"),
         rem: bi("chk_remainder"),
         case: bi("chk_case"),
         space: bi("chk_space"),
@@ -1746,6 +1761,34 @@ fn run_case(loc: &mut Local, x: &VIx, rng: &mut Rng, f: &Fmt, v: &Val) {
         return;
     }
     loc.sample(|| json!({"format": f.text, "value": show_val(f, v), "text": text, "result": "parsed back to the value (up to the printed precision)"}));
+    // 2b. the same text through pre-parsed borrowed and owned items
+    if rng.chance(1, 4) {
+        loc.bucket(x.items);
+        for (entry, owned) in [("format::parse(StrftimeItems::parse items)", false), ("format::parse(StrftimeItems::parse_to_owned items)", true)] {
+            let r = guard(|| {
+                if owned {
+                    match StrftimeItems::new(&f.text).parse_to_owned() {
+                        Ok(items) => Some(parse_items(f.target, &text, &items)),
+                        Err(_) => None,
+                    }
+                } else {
+                    match StrftimeItems::new(&f.text).parse() {
+                        Ok(items) => Some(parse_items(f.target, &text, &items)),
+                        Err(_) => None,
+                    }
+                }
+            });
+            match r {
+                Ok(None) => loc.violation(&sig(f, entry, class, "", "format-string-rejected-by-item-parser"), json!({"format": f.text})),
+                Ok(Some(r)) => {
+                    settle(loc, f, v, class, entry, "", &text, Ok(r));
+                }
+                Err(p) => {
+                    settle(loc, f, v, class, entry, "", &text, Err(p));
+                }
+            }
+        }
+    }
     // 3. parse_and_remainder
     {
         loc.bucket(x.rem);
